@@ -19,6 +19,7 @@ type Env struct {
 	pkg   string
 	depth int
 	loopEntry *Env // state at the moment the loop was entered, for atEntry(...)
+	loopHead  *Env // state at the head of the current iteration, for atHead(...) (back-edge obligations only)
 	side  *[]string // side facts produced while translating (e.g. axioms of s_sub terms)
 	seen  func(k string) string // membership in the delivered-key set of the (single) live map iterator
 	fresh func(term string) string // "term is an object allocated by this activation" (ensures side)
@@ -408,6 +409,11 @@ func (e *Env) call(x *ast.CallExpr) Val {
 			e.fail(x, "atEntry() is only available in loop invariants")
 		}
 		return e.loopEntry.exprWithInfo(x.Args[0], e)
+	case "atHead":
+		if e.loopHead == nil {
+			e.fail(x, "atHead() is only available in obligations checked at a loop's back edge (each / invariant step)")
+		}
+		return e.loopHead.exprWithInfo(x.Args[0], e)
 	case "implies":
 		a, b := e.expr(x.Args[0]), e.expr(x.Args[1])
 		return Val{S: fmt.Sprintf("(=> %s %s)", a.S, b.S), T: types.Typ[types.Bool]}
@@ -1355,7 +1361,6 @@ var layoutCalls = map[string]bool{
 // evNode(n) (dynamic n.WriteTo) evChild(p) (static p.WriteTo on a concrete node) evPrec(n) (n.Precedence()) and, for
 // fullSeq, evSpace() evNewline() evIndent() evInc() evDec(); evCall("short key") matches any call of that callee.
 func (e *Env) traceSeq(x *ast.CallExpr, full bool, writesOnly bool) Val {
-	cx := e.cx
 	start := 0
 	for i, ev := range e.trace {
 		if ev.name == "#loop" {
@@ -1369,6 +1374,9 @@ func (e *Env) traceSeq(x *ast.CallExpr, full bool, writesOnly bool) Val {
 		}
 		if strings.HasSuffix(ev.name, "Precedence") {
 			continue // pure queries are not part of the emitted sequence
+		}
+		if !full && !strings.HasPrefix(ev.name, "(") && strings.Contains(ev.name, ".") && !strings.HasPrefix(ev.name, "Builder.") {
+			continue // standard-library calls are not part of the emitted sequence (fullSeq sees them)
 		}
 		if strings.HasPrefix(ev.name, "Builder.") != writesOnly {
 			continue // writeSeq looks at the raw buffer writes only, the other patterns never do
@@ -1418,45 +1426,71 @@ func (e *Env) traceSeq(x *ast.CallExpr, full bool, writesOnly bool) Val {
 		}
 		return true, eqs
 	}
+	// exact matching with optional events: alternatives are explored (an optional descriptor is present or absent) and
+	// combined into a disjunction; branches whose event kinds do not fit are dropped statically
+	var descs []*ast.CallExpr
 	for _, a := range x.Args {
 		ce, ok := a.(*ast.CallExpr)
 		if !ok {
 			e.fail(a, "traceSeq arguments must be event descriptors ev...(...)")
 		}
+		descs = append(descs, ce)
+	}
+	var rec func(di, pos int) string
+	rec = func(di, pos int) string {
+		if di == len(descs) {
+			if pos == len(evs) {
+				return "true"
+			}
+			return "false"
+		}
+		ce := descs[di]
 		id, _ := ce.Fun.(*ast.Ident)
 		if id != nil && id.Name == "evOpt" {
-			// evOpt(cond, ev): the event is present exactly when cond holds
 			cond := e.expr(ce.Args[0])
 			inner, ok := ce.Args[1].(*ast.CallExpr)
 			if !ok {
-				e.fail(a, "evOpt(cond, ev...(...))")
+				e.fail(ce, "evOpt(cond, ev...(...))")
 			}
+			absent := rec(di+1, pos)
+			present := "false"
 			if pos < len(evs) {
 				if m, eqs := match(inner, evs[pos]); m && !contradictory(eqs) {
-					// present: cond must hold -- unless the following mandatory descriptor is the one that matches here;
-					// kinds of an optional event and its successor differ in every contract, so greedy matching is exact
-					conj = append(conj, cond.S)
-					conj = append(conj, eqs...)
-					pos++
-					continue
+					rest := rec(di+1, pos+1)
+					if rest != "false" {
+						present = "(and " + cond.S + " " + strings.Join(append(eqs, rest), " ") + ")"
+					}
 				}
 			}
-			conj = append(conj, "(not "+cond.S+")")
-			continue
+			if absent == "false" {
+				return present
+			}
+			ab := "(and (not " + cond.S + ") " + absent + ")"
+			if present == "false" {
+				return ab
+			}
+			return "(or " + present + " " + ab + ")"
 		}
 		if pos >= len(evs) {
-			return falseV
+			return "false"
 		}
 		m, eqs := match(ce, evs[pos])
-		if !m {
-			return falseV
+		if !m || contradictory(eqs) {
+			return "false"
 		}
-		conj = append(conj, eqs...)
-		pos++
+		rest := rec(di+1, pos+1)
+		if rest == "false" {
+			return "false"
+		}
+		return "(and " + strings.Join(append(eqs, rest), " ") + ")"
 	}
-	if pos != len(evs) {
-		return falseV
-	}
+	_ = falseV
+	_ = conj
+	_ = pos
+	return Val{S: rec(0, 0), T: types.Typ[types.Bool]}
+}
+
+func unusedTraceTail(conj []string, cx *Cx) Val {
 	_ = cx
 	if len(conj) == 0 {
 		return Val{S: "true", T: types.Typ[types.Bool]}
